@@ -110,32 +110,38 @@ class Design(Elaboratable):
             plan.append((cls, spec, sigs, when, ctxk, statics))
         body_sites = [p for p in plan if p[4] == "body"]
         meth_sites = [p for p in plan if p[4] == "method_body"]
+        # 40% of the sites use a multi-bit trigger value that is non-zero exactly when the trigger holds and whose bit 0 is always clear
+        wide = {id(p[3]): Cat(Const(0, 1), p[3], Const(0, 1)) for p in plan if rnd.random() < 0.4}
+
+        def W(when):
+            return wide.get(id(when), when)
+
         for cls, spec, sigs, when, ctxk, statics in plan:
             src = self.src if statics["lane"] % 2 == 0 else self.src2
             ev = cls.hw(**statics, **sigs)
             if ctxk == "top":
-                src.emit(m, ev, when=when)
+                src.emit(m, ev, when=W(when))
             elif ctxk == "always":
                 src.emit(m, ev)
             elif ctxk == "topemit":
-                src.top_emit(ev, when=when)
+                src.top_emit(ev, when=W(when))
             elif ctxk == "if":
                 with m.If(self.c):
-                    src.emit(m, ev, when=when)
+                    src.emit(m, ev, when=W(when))
             elif ctxk == "nested_if":
                 with m.If(self.c):
                     with m.If(self.c2):
-                        src.emit(m, ev, when=when)
+                        src.emit(m, ev, when=W(when))
                     with m.Else():
                         pass
         with Transaction(name="t").body(m, ready=self.go):
             for cls, spec, sigs, when, ctxk, statics in body_sites:
-                (self.src if statics["lane"] % 2 == 0 else self.src2).emit(m, cls.hw(**statics, **sigs), when=when)
+                (self.src if statics["lane"] % 2 == 0 else self.src2).emit(m, cls.hw(**statics, **sigs), when=W(when))
 
         @def_method(m, self.meth)
         def _():
             for cls, spec, sigs, when, ctxk, statics in meth_sites:
-                (self.src if statics["lane"] % 2 == 0 else self.src2).emit(m, cls.hw(**statics, **sigs), when=when)
+                (self.src if statics["lane"] % 2 == 0 else self.src2).emit(m, cls.hw(**statics, **sigs), when=W(when))
 
         # registration order = the order of emit calls above
         order = [p for p in plan if p[4] not in ("body", "method_body")] + body_sites + meth_sites
